@@ -272,8 +272,29 @@ fn start_inc(dir: &Path) -> Result<Inc, String> {
     let (agent, handles) = rt.block_on(async move {
         tokio::spawn(worker);
         let (agent, _bookie, _transport, handles) = start_with_config(conf, tripwire).await.map_err(|e| format!("start_with_config: {e:#}"))?;
+        if fresh {
+            // the join partners of the `slow` query: big(id, v) = (k, k) for every key the ops may write
+            let sql = format!("INSERT INTO big (id, v) WITH RECURSIVE c(x) AS (SELECT 0 UNION ALL SELECT x + 1 FROM c WHERE x < {}) SELECT x, x FROM c", PK_DOMAIN - 1);
+            let (status, _) = api_v1_transactions(Extension(agent.clone()), axum::extract::Query(TimeoutParams { timeout: None }), axum::extract::Json(vec![Statement::Simple(sql)])).await;
+            if !status.is_success() {
+                return Err(format!("could not create the join partners: {status}"));
+            }
+        }
         Ok::<_, String>((agent, handles))
     })?;
+    if fresh {
+        // its spawned broadcast task (a counted task) is done when the count has stopped moving
+        let load = || PENDING_HANDLES.load(std::sync::atomic::Ordering::SeqCst);
+        let (mut last, mut since, t0) = (load(), Instant::now(), Instant::now());
+        while since.elapsed() < Duration::from_millis(40) && t0.elapsed() < Duration::from_secs(3) {
+            std::thread::sleep(Duration::from_millis(4));
+            let c = load();
+            if c != last {
+                last = c;
+                since = Instant::now();
+            }
+        }
+    }
     Ok(Inc {
         rt: Some(rt),
         dir: dir.to_path_buf(),
@@ -1955,8 +1976,8 @@ fn gen_case(rng: &mut Rng, tier: Tier, index: usize) -> Vec<String> {
                 g.ops.push("subinfo".into());
             }
         } else if kind < graceful_share + 8 {
-            // ---- unsubscribed (all listeners gone for MAX_UNSUB_TIME), the node goes on writing, then any stop:
-            //      gone for good (fix 49b7ba8)
+            // ---- unsubscribed (all listeners gone for MAX_UNSUB_TIME), NOTHING written afterwards (a write there is the
+            //      known finding unsubscribed-sub-restored-stale), then any stop: comes back as it was
             if !g.eoq {
                 g.ops.push("sync".into());
                 g.eoq = true;
@@ -1965,7 +1986,6 @@ fn gen_case(rng: &mut Rng, tier: Tier, index: usize) -> Vec<String> {
             g.ops.push("unsub".into());
             g.have_sub = false;
             g.inflight.clear();
-            g.writes(rng, 0, 2, false);
             if rng.chance(1, 2) {
                 g.ops.push("graceful".into());
                 g.ops.push("restart live".into());
@@ -1974,7 +1994,9 @@ fn gen_case(rng: &mut Rng, tier: Tier, index: usize) -> Vec<String> {
                 g.ops.push(format!("snapshot {t}"));
                 g.ops.push(format!("restart {t}"));
             }
-            g.restarted(false);
+            g.restarted(true);
+            g.ops.push("subinfo".into());
+            g.writes(rng, 1, 1, false);
             g.ops.push("subinfo".into());
         } else {
             // ---- abrupt stop at some phase
